@@ -13,7 +13,12 @@ Tie:
      the density rebuilt inside Coq from these chain tensors = the default eager density;
  (S) each selectable strategy (amp_model/preprocessor pairs, use_tf_function, jit_compile, no_id_cached, lazy_call, second
      call through the id cache) reports that same Coq-rebuilt density;
- (L) cached_int / cached_amp likelihood models give the default NLL and gradient (line-shape parameters fixed)."""
+ (L) cached_int / cached_amp likelihood models give the default NLL and gradient (line-shape parameters fixed).
+Fixed rows of the second hunt round (pinned_strategy_configs / pinned_likelihood_configs): a moving parent with restricted
+helicities (random_z default of p4_directly), a gls-cpv decay (couplings applied once by cached_shape), a Flatte line shape
+with floating couplings evaluated after the trainable parameters moved since preprocessing (cached_shape must not freeze it),
+cp_particles (OPEN), force_min_l decays under cached_int, the cached integral built as the first evaluation of a fresh
+amplitude (bw_l), a polarised parent under the cached likelihood models (OPEN)."""
 import itertools
 import math
 import random
@@ -300,7 +305,7 @@ def pinned_strategy_configs():
     return out
 
 
-def pinned_likelihood_configs():
+def pinned_likelihood_configs(tier="quick"):
     """(tag, cfg, M0, mf, spec).  spec: models = likelihood models compared with the default one, set = parameter values
     set on top of the random couplings, known = model -> OPEN finding, int_first = also build the cached integral
     (experimental.opt_int.cached_int_mc) as the FIRST evaluation of a fresh amplitude"""
@@ -315,6 +320,18 @@ def pinned_likelihood_configs():
     cfg2 = copy.deepcopy(cfg)
     cfg2["decay"]["R_BC"] = ["B", "C", {"p_break": True, "force_min_l": True}]
     out.append(("forceminl", cfg2, 1.9, PMF, {"models": ("cached_int", "cached_amp")}))
+    if tier == "thorough":
+        # the option on every decay, the production vertices with l in {0,1,2} as well (vector parent, weak decay)
+        cfg3 = copy.deepcopy(cfg2)
+        cfg3["particle"]["$top"]["A"]["J"] = 1
+        cfg3["decay"]["A"] = [[i[0], i[1], {"p_break": True, "force_min_l": True}] for i in cfg3["decay"]["A"]]
+        cfg3["decay"]["R_BD"] = ["B", "D", {"p_break": True, "force_min_l": True}]
+        out.append(("forceminl_all", cfg3, 1.9, PMF, {"models": ("cached_int", "cached_amp")}))
+        cfg4 = copy.deepcopy(cfg3)
+        for k in ("R_BC", "R_BD"):
+            cfg4["decay"][k] = [i for i in cfg4["decay"][k] if not isinstance(i, dict)] + [{"p_break": True}]
+        cfg4["decay"]["A"] = [[i[0], i[1], {"p_break": True}] for i in cfg4["decay"]["A"]]
+        out.append(("lfirst_all", cfg4, 1.9, PMF, {"models": ("cached_int", "cached_amp"), "int_first": "also"}))
     # polarised spin-1/2 parent (density matrix rho): OPEN finding for the cached likelihood models
     mf = {"B": 0.938, "C": 0.494, "D": 0.139}
     res = {"R_BC": {"pair": "R_BC", "J": 1.5, "P": -1, "mass": 1.52, "width": 0.05}, "R_CD": {"pair": "R_CD", "J": 1, "P": -1, "mass": 0.892, "width": 0.05}}
@@ -464,12 +481,12 @@ def builder_and_strategy_cases(ctx, rnd, tier, cases, tags=None):
                     ctx.distinct.add(("S", tag, sname, which, e))
 
 
-def likelihood_cases(ctx, rnd, cases, tags=None):
+def likelihood_cases(ctx, rnd, cases, tags=None, tier="quick"):
     """cached_int / cached_amp likelihood models vs the default one: same NLL and gradient (line shape fixed)"""
     import copy
     from tf_pwa.config_loader import ConfigLoader
     todo = [(tag, cfg, M0, mf, {"models": ("cached_int", "cached_amp")}) for tag, cfg, M0, mf, _tree in configs(rnd)[:2]]
-    todo += pinned_likelihood_configs()
+    todo += pinned_likelihood_configs(tier)
     for tag, cfg, M0, mf, spec in todo:
         if tags is not None and tag not in tags:
             continue
@@ -487,7 +504,7 @@ def likelihood_cases(ctx, rnd, cases, tags=None):
                 pars = ampkit.random_params(amp, rnd)
                 pars.update(spec.get("set", {}))
             amp.set_params(pars)
-            if spec.get("int_first"):
+            if spec.get("int_first") and name == "default":
                 # the cached integral as the FIRST evaluation of this fresh amplitude (nothing has fixed any lazily
                 # initialised attribute yet) against the default density summed over the same events, evaluated by
                 # another fresh object
@@ -502,7 +519,8 @@ def likelihood_cases(ctx, rnd, cases, tags=None):
                 cases.append(("L_%s_int_first" % tag, "Qle_bool (Qabs (%s - %s)) %s = true" % (Qq(ref0), Qq(got), Qq(1e-9 * max(1.0, abs(ref0)))), "vm_compute; reflexivity", meta))
                 ctx.evaluations += 1
                 ctx.distinct.add(("L", tag, "int_first"))
-                continue
+                if spec["int_first"] is True:
+                    break  # this row is the direct integral only
             data = config.data.cal_angle(data_p4); phsp = config.data.cal_angle(phsp_p4)
             try:
                 fcn = config.get_fcn([[data], [phsp], None, None], batch=7)
@@ -545,7 +563,7 @@ def search(ctx, fails):
             return {"expr": m["expr"], "shapes": m["shapes"], "operands": m["operands"], "tf_pwa.einsum": m["impl"], "numpy.einsum": m["numpy"]}
         if m.get("layer") == "strategy" and "impl_density" in m:
             if abs(m["impl_density"] - m["default_density"]) > 1e-9 * abs(m["default_density"]):
-                return {k: m[k] for k in ("config", "params", "events", "strategy", "options", "call", "event", "impl_density", "default_density")}
+                return {k: m[k] for k in ("config", "params", "params_at_preprocessing", "events", "strategy", "options", "call", "event", "impl_density", "default_density") if k in m}
         if m.get("layer") == "strategy" and "error" in m:
             return {k: m[k] for k in ("config", "params", "events", "strategy", "options", "error")}
         if m.get("layer") == "likelihood_strategy":
@@ -556,14 +574,16 @@ def search(ctx, fails):
 def run(ctx):
     rnd = random.Random(ctx.seed * 1000003 + 5)
     ctx.rule = ("einsum grammar: 2-4 operands, rank<=4, sizes {1,2,3}, optional ellipsis batch (size 1/2); builder expressions captured on spin-0 / spin-1/2 / vector configs; "
-                "strategy matrix x 2 events x first/second call on spin configs, a 4-body parity-violating cascade with charge -1 events (conjugation on the couplings, on the momenta, and with CP-violating is_cp couplings) and a declared-identical pair; cached_int/cached_amp NLL+gradient; distinct = distinct expressions / (config,strategy,call,event)")
+                "strategy matrix x 2 events x first/second call on spin configs, a 4-body parity-violating cascade with charge -1 events (conjugation on the couplings, on the momenta, and with CP-violating is_cp couplings), a declared-identical pair and fixed rows "
+                "(boosted parent with restricted helicities, gls-cpv decay, Flatte with floating couplings moved after preprocessing, cp_particles; eager cached / p4 cells in quick, the whole row in thorough); "
+                "cached_int/cached_amp NLL+gradient on spin configs, force_min_l decays, a polarised parent, and the cached integral built first on a fresh amplitude; distinct = distinct expressions / (config,strategy,call,event)")
     common.theorem_stage(ctx)
     cases = einsum_function_cases(ctx, rnd, 60 if ctx.tier == "quick" else 600)
     ctx.log("einsum cases", len(cases))
     cases += reduce_sum_step_cases(ctx, random.Random(ctx.seed * 1000003 + 505), 30 if ctx.tier == "quick" else 300)
     builder_and_strategy_cases(ctx, rnd, ctx.tier, cases)
     ctx.log("builder+strategy cases", len(cases))
-    likelihood_cases(ctx, rnd, cases)
+    likelihood_cases(ctx, rnd, cases, tier=ctx.tier)
     for c in cases[:: max(1, len(cases) // 4)]:
         ctx.sample({"case": c[0], "goal": c[1][:300], "layer": c[3].get("layer")})
     res = common.coq_cases(ctx, "c05", HEADER, [c[:3] for c in cases], per_file=25, case_timeout=120)
